@@ -269,17 +269,28 @@ func verifC10Admin() {
 	persisted := 0
 	verifrt.Stub("(*github.com/nsqio/nsq/nsqd.NSQD).PersistMetadata", func(n *NSQD) error { persisted++; return nil })
 	// the topic is registered but not started, so its pump delivers nothing during the request
-	t := NewTopic("t", n, n.DeleteExistingTopicCallbackVerif())
-	n.topicMap["t"] = t
-	ch := t.GetChannel("c")
+	// names (and an unrelated extra argument) that contain the word the pause handlers look for
+	// in the request: the action is decided by the PATH alone
+	tn, cn, extra := "t", "c", ""
+	if verifrt.Choice("names", 2) == 1 {
+		tn, cn, extra = "unpause_t", "c.unpause", "&note=unpause"
+	}
+	t := NewTopic(tn, n, n.DeleteExistingTopicCallbackVerif())
+	n.topicMap[tn] = t
+	ch := t.GetChannel(cn)
+	// both start paused or both running: pause and unpause each have something to change
+	startPaused := verifrt.Bool("start-paused")
+	if startPaused {
+		t.paused, ch.paused = 1, 1
+	}
 	t.PutMessage(verifMsg("q", 1))
 	ch.PutMessage(verifMsg("cq", 1))
 	eps := []string{"/topic/create", "/topic/delete", "/topic/empty", "/topic/pause", "/topic/unpause",
 		"/channel/create", "/channel/delete", "/channel/empty", "/channel/pause", "/channel/unpause"}
 	ep := eps[verifrt.Choice("endpoint", len(eps))]
-	topicArg := []string{"", "topic=t", "topic=nope", "topic=b%24d"}[verifrt.Choice("topic", 4)]
-	chanArg := []string{"", "&channel=c", "&channel=nope", "&channel=b%24d"}[verifrt.Choice("channel", 4)]
-	req := verifReq("POST", ep, topicArg+chanArg, nil, false, 0)
+	topicArg := []string{"", "topic=" + tn, "topic=nope", "topic=b%24d"}[verifrt.Choice("topic", 4)]
+	chanArg := []string{"", "&channel=" + cn, "&channel=nope", "&channel=b%24d"}[verifrt.Choice("channel", 4)]
+	req := verifReq("POST", ep, topicArg+chanArg+extra, nil, false, 0)
 	var v interface{}
 	var err error
 	switch ep {
@@ -308,8 +319,8 @@ func verifC10Admin() {
 		}
 	}
 	isChannel := ep[1] == 'c'
-	topicMissing, topicBad, topicKnown := topicArg == "", topicArg == "topic=b%24d", topicArg == "topic=t"
-	chanMissing, chanBad, chanKnown := chanArg == "", chanArg == "&channel=b%24d", chanArg == "&channel=c"
+	topicMissing, topicBad, topicKnown := topicArg == "", topicArg == "topic=b%24d", topicArg == "topic="+tn
+	chanMissing, chanBad, chanKnown := chanArg == "", chanArg == "&channel=b%24d", chanArg == "&channel="+cn
 	verifrt.Assert(status != 500, "admin-endpoint-never-500")
 	switch {
 	case topicMissing:
@@ -326,25 +337,25 @@ func verifC10Admin() {
 		verifrt.Assert(status == 404, "unknown-channel-is-404")
 	default:
 		verifrt.Assert(status == 200, "valid-admin-request-is-200")
-		_, terr := n.GetExistingTopic("t")
+		_, terr := n.GetExistingTopic(tn)
 		switch ep {
 		case "/topic/delete":
 			verifrt.Assert(terr != nil, "topic-deleted")
 		case "/topic/empty":
 			verifrt.Assert(t.Depth() == 0 && ch.Depth() == 1, "topic-empty-discards-topic-queue-only")
 		case "/topic/pause":
-			verifrt.Assert(t.IsPaused() && persisted == 1 && !ch.IsPaused(), "topic-paused-and-persisted")
+			verifrt.Assert(t.IsPaused() && persisted == 1 && ch.IsPaused() == startPaused, "topic-paused-and-persisted")
 		case "/topic/unpause":
-			verifrt.Assert(!t.IsPaused() && persisted == 1, "topic-unpaused-and-persisted")
+			verifrt.Assert(!t.IsPaused() && persisted == 1 && ch.IsPaused() == startPaused, "topic-unpaused-and-persisted")
 		case "/channel/delete":
-			_, cerr := t.GetExistingChannel("c")
+			_, cerr := t.GetExistingChannel(cn)
 			verifrt.Assert(cerr != nil && terr == nil, "channel-deleted-topic-kept")
 		case "/channel/empty":
 			verifrt.Assert(ch.Depth() == 0 && t.Depth() == 1, "channel-empty-discards-channel-queue-only")
 		case "/channel/pause":
-			verifrt.Assert(ch.IsPaused() && persisted == 1 && !t.IsPaused(), "channel-paused-and-persisted")
+			verifrt.Assert(ch.IsPaused() && persisted == 1 && t.IsPaused() == startPaused, "channel-paused-and-persisted")
 		case "/channel/unpause":
-			verifrt.Assert(!ch.IsPaused() && persisted == 1, "channel-unpaused-and-persisted")
+			verifrt.Assert(!ch.IsPaused() && persisted == 1 && t.IsPaused() == startPaused, "channel-unpaused-and-persisted")
 		case "/channel/create":
 			_, cerr := t.GetExistingChannel(chanArg[len("&channel="):])
 			verifrt.Assert(cerr == nil, "channel-created")
@@ -352,6 +363,6 @@ func verifC10Admin() {
 		verifrt.Reach("admin-ok", true)
 	}
 	if status != 200 {
-		verifrt.Assert(t.Depth() == 1 && ch.Depth() == 1 && !t.IsPaused() && !ch.IsPaused() && persisted == 0, "refused-admin-request-changes-nothing")
+		verifrt.Assert(t.Depth() == 1 && ch.Depth() == 1 && t.IsPaused() == startPaused && ch.IsPaused() == startPaused && persisted == 0, "refused-admin-request-changes-nothing")
 	}
 }
